@@ -301,6 +301,11 @@ func runJob(a *agg, jb job, fatalBudget *int64) {
 		}
 		kind := "fatal"
 		run.Count("process_deaths/"+jb.e.name, 1)
+		if jb.scale { // the journal index of a scaling sample encodes its state: stateIndex*10000 + size
+			if sts := scaleStates(jb.e); j.Idx/10000 < len(sts) {
+				jb.state = sts[j.Idx/10000]
+			}
+		}
 		switch {
 		case res != nil && res.HangIdx != nil:
 			kind = "hang"
@@ -458,7 +463,7 @@ func TestHammer(t *testing.T) {
 			run.Floor("inputs/"+e.name, int64(run.Pick(e.quick, e.thorough)/10))
 		}
 	}
-	if run.NViol() == 0 {
+	if os.Getenv("VERIF_C09_KEEP") == "" { // witnesses are in the replay files; the children's directories are scratch
 		os.RemoveAll(workDir)
 	}
 }
